@@ -41,3 +41,59 @@ PROPS['C09'] = {
     'assumptions': COMMON_ASSUMPTIONS + ['an error moved into another function, a struct or the return value is '
                                          'considered delegated (the callee is analysed in its own right)'],
 }
+
+PROPS['C13'] = {
+    'modules': ['c13'],
+    'level': 'proof',
+    'quick_configs': ['default'],
+    'thorough_configs': ALL,
+    'controls': ['O1', 'O2'],
+    'floors': {'default': {'O1': 90, 'O2': 8}},
+    'rule_text': 'one obligation per read-only witness root (mount, every listing/open/read/seek/query API item, unmount, '
+                 'every destructor): no device write reachable in the mono call graph outside a latch guard (O1); one '
+                 'per latch setter: not reachable from those roots except through the two documented exceptions (O2); '
+                 'plus the status-latch shape conditions G1-G5 (O3). Non-trivial = the root reaches the device-write '
+                 'leaf set at all, so guard dominance had to be established',
+    'explanation': 'Reachability proof over the complete monomorphic call graph (fatfs has no unsafe, no fn pointers, no '
+                   'dyn dispatch of its own; asserted each run). O1: from every read-only root every path to a device '
+                   'write crosses an edge that is taken only when a write-back latch is set (DirEntryEditor.dirty, '
+                   'FsInfoSector.dirty, or computed status flags != cached flags). O2: the latch setters are unreachable '
+                   'from those roots once the edges guarded by options.update_accessed_date and by the `cached free '
+                   'count is None` arm of stats() are removed (the statement\'s two exceptions). O3: the status byte '
+                   'written is the value compared, it is bpb.status_flags() with only `|= arg`, the cache starts as '
+                   'bpb.status_flags(), is updated only after a successful write, and read-only roots only ever ask for '
+                   '`false`. Together: no write at all for every history of read-only calls on every volume.',
+    'claim': 'Whole property, for all histories, FAT widths and mount states: a proof by reachability over the mono call '
+             'graph that no device write can be issued from the read-only API surface except behind latches that the '
+             'read-only surface cannot set (the two documented exceptions excluded exactly as the statement does).',
+    'level_note': 'trusted base: rustc MIR + trait resolution, extractor, completeness of the witness root list '
+                  '(audited against the crate\'s effective public API on every run), leaf model of Dev/Tp/Occ/log',
+    'technique': 'static analysis: call-graph reachability with latch-guard dominance (effect analysis)',
+    'assumptions': COMMON_ASSUMPTIONS + ['options.update_accessed_date is false (the statement\'s precondition)'],
+}
+
+PROPS['C14'] = {
+    'modules': ['c14'],
+    'level': 'other',
+    'quick_configs': ['default'],
+    'thorough_configs': ALL,
+    'controls': ['P3', 'P4'],
+    'floors': {'default': {'P3': 2, 'P4': 5, 'P2': 3, 'P5.nostage': 25}},
+    'rule_text': 'obligations: the three must-pass conditions on File::flush (entry write-back, device flush, order), one '
+                 'per forwarding function (Write::flush, Drop, std::io::Write::flush), one per latch-clearing site, one '
+                 'per Write::flush impl, one per field of the structs on the write path, and the write-through '
+                 'must-calls; non-trivial = decided by a must-pass-through or dominance query',
+    'explanation': 'Sync-before-acknowledge as must-pass-through along Ok edges of the MIR CFG: every Ok-exit of '
+                   'File::flush crosses the Ok edge of the directory-entry write-back (unless the handle has no entry) and '
+                   'then the Ok edge of the device flush; Write::flush/Drop/std::io::Write::flush forward to it on every '
+                   'path; a write-back latch is only cleared after the Ok edge of a device write; every Write::flush impl '
+                   'forwards; File::write hands the caller\'s buffer to the device in the same call; FAT/entry writers '
+                   'cannot return Ok without a device write; no struct on the write path has a buffer-typed field. '
+                   'Decides the ordering/forwarding discipline on all paths; does not decide that the bytes are the right '
+                   'bytes (content equality after a simulated power cut is runtime).',
+    'claim': 'Structural necessary conditions of durability on every path: flush = entry write-back then device flush, '
+             'forwarding siblings, latch cleared only after a successful write, write-through with no staging buffers.',
+    'level_note': 'assumes the device honours flush (the statement\'s premise); content correctness not decided',
+    'technique': 'static analysis: must-pass-through along Ok edges + dominance on MIR, sibling-impl cross-check',
+    'assumptions': COMMON_ASSUMPTIONS,
+}
